@@ -74,13 +74,15 @@ func (e *engine) dirRelocs() {
 		)
 	}
 	for _, h := range hs {
+		rng := e.c.Rng.Fork() // forked whether or not the history is wanted: --only must not shift the later histories
 		if e.wantHist(h.name) {
-			e.dirReloc(h, e.c.Rng.Fork(), false)
+			e.dirReloc(h, rng, false)
 		}
 	}
+	rng := e.c.Rng.Fork()
 	if e.wantHist("dirrelocfull") {
 		small := x.Config{Name: "1k-nojournal-10m", Size: 10 * MiB, Journal: x.B(false)}
-		e.dirReloc(relocCfg{name: "dirrelocfull", cfg: small, creates: 60, nameLen: 200}, e.c.Rng.Fork(), true)
+		e.dirReloc(relocCfg{name: "dirrelocfull", cfg: small, creates: 60, nameLen: 200}, rng, true)
 	}
 }
 
